@@ -42,7 +42,7 @@ let parse_type s =
   match s with
   | "i8" -> M.TI8 | "u8" -> M.TU8 | "i16" -> M.TI16 | "u16" -> M.TU16 | "i32" -> M.TI32 | "u32" -> M.TU32
   | "i64" -> M.TI64 | "u64" -> M.TU64 | "f" -> M.TF | "d" -> M.TD | "ld" -> M.TLD | "p" -> M.TP
-  | "rblk" -> M.TRBLK
+  | "rblk" -> M.TRBLK | "undef" -> M.TUNDEF
   | _ when String.length s > 3 && String.sub s 0 3 = "blk" -> M.TBLK (n_of_int (int_of_string (String.sub s 3 (String.length s - 3))))
   | _ -> failwith ("bad type " ^ s)
 
